@@ -673,6 +673,18 @@ func conc19ParChild(c *Ctx) {
 						known[i] = true
 					}
 					snaps[g] = append(snaps[g], snap{pre, seen})
+					// single read-locked lookups of every dynamic name: a name that is found belongs to
+					// a registration that has completed, so later snapshots must contain it
+					for i := 0; i < p.ndyn; i++ {
+						name := protoreflect.FullName(fmt.Sprintf("verif.dyn%d.M2", i))
+						if _, err := protoregistry.GlobalTypes.FindMessageByName(name); err == nil {
+							// the types are registered after the file
+							known[i] = true
+						}
+						if _, err := protoregistry.GlobalFiles.FindDescriptorByName(name); err == nil {
+							known[i] = true
+						}
+					}
 				default:
 					i := -2 - step
 					fd := dyn[i]
